@@ -97,6 +97,9 @@ class FnContract:
         p = self.pattern
         if p == path:
             return True
+        m = re.match(r'^\{([^}]*)\}(.*)$', p)
+        if m:
+            return any((alt.strip() + m.group(2)) == path for alt in m.group(1).split(','))
         if '*' in p:
             rx = '^' + re.escape(p).replace(r'\*', r'[^:]*') + '$'
             return re.match(rx, path) is not None
@@ -114,7 +117,7 @@ class Policy:
 
 
 CLAUSE_KW = ('requires', 'ensures', 'decreases', 'invariant', 'invariant_except_break')
-LABEL_RE = re.compile(r'^\[([A-Za-z0-9_.\-:]+)\]\s*(.*)$')
+LABEL_RE = re.compile(r'^\[([A-Za-z0-9_.\-:+]+)\]\s*(.*)$')
 
 
 class ContractSet:
@@ -256,9 +259,9 @@ class ContractSet:
                 fc.props += w[1:]; cur_list = None; continue
             if w[0] == 'from_spec':
                 fc.from_spec = s[len('from_spec'):].strip(); cur_list = None; continue
-            m = re.match(r'^loop\s+(\d+)(?:\s+iter\s+(\w+))?$', s)
+            m = re.match(r'^loop\s+(\d+|\*)(?:\s+iter\s+(\w+))?$', s)
             if m:
-                k = int(m.group(1))
+                k = 0 if m.group(1) == '*' else int(m.group(1))
                 cur_loop = fc.loops.setdefault(k, LoopSpec(k))
                 if m.group(2): cur_loop.iter_name = m.group(2)
                 cur_list = None; continue
